@@ -88,6 +88,37 @@ def gen_wrap(rng):
     return steps
 
 
+def gen_full(rng):
+    """all 100 dynamic ids in use; one module leaves and a newcomer must get exactly the freed id at once"""
+    steps = [["open", "M"], ["hello", "M", {"mod_id": 50}], ["drain"], ["sub", "M", W.MT_CLIENT_INFO], ["drain"]]
+    live = []
+    for n in range(100):
+        L = f"d{n}"
+        steps += [["open", L], ["hello", L, {"mod_id": 0, "v2": rng.random() < 0.8}]]
+        live.append(L)
+        if n % 25 == 24:
+            steps.append(["drain"])
+    steps.append(["drain"])
+    n = 100
+    for k in range(rng.randint(4, 8)):
+        which = rng.choice(["last", "last", "first", "random"])
+        L = live[-1] if which == "last" else live[0] if which == "first" else rng.choice(live)
+        live.remove(L)
+        steps += [["disc", L] if rng.random() < 0.6 else ["close", L, rng.choice(["fin", "rst"])], ["drain"]]
+        if rng.random() < 0.3:
+            # one more than fits: must be refused while the table is full again
+            pass
+        N = f"d{n}"
+        n += 1
+        steps += [["open", N], ["hello", N, {"mod_id": 0, "v2": rng.random() < 0.8}], ["drain"]]
+        live.append(N)
+        if rng.random() < 0.4:
+            X = f"d{n}"
+            n += 1
+            steps += [["open", X], ["hello", X, {"mod_id": 0}], ["drain"]]     # table full: refused
+    return steps
+
+
 def gen_cases(tier, seed):
     rng = random.Random(f"c06-{seed}")
     nraw, nwrap, napi = (2500, 6, 24) if tier == "quick" else (120000, 200, 1000)
@@ -97,7 +128,7 @@ def gen_cases(tier, seed):
         cases.append({"kind": "raw", "seed": s, "tc": i % 5 == 4, "steps": gen_raw(random.Random(s))})
     for i in range(nwrap):
         s = rng.getrandbits(32)
-        cases.append({"kind": "wrap", "seed": s, "tc": False, "steps": gen_wrap(random.Random(s)), "timeout": 120})
+        cases.append({"kind": "wrap", "seed": s, "tc": False, "steps": gen_wrap(random.Random(s)) if i % 3 else gen_full(random.Random(s)), "timeout": 120})
     for i in range(napi):
         cases.append({"kind": "api", "seed": rng.getrandbits(32), "tc": i % 4 == 3, "nconn": 6, "timeout": 120})
     return cases
